@@ -49,6 +49,8 @@ GEN = {
     'g_floats': ('\tcpu 8086\n' + ''.join('f%d\tequ %s\n' % (i, v) for i, v in enumerate(FLOATS)) + '\tdb 1\n', {}),
     # every emitting line lays down its own line number (include file: 100 + line): what a MAP entry calls line n holds the byte n
     'g_lineno': ('\tcpu 6502\n\torg $1000\n\tbyt 3\n\trept 2\n\tinclude "ln.inc"\n\tbyt 6\n\tendm\n\tbyt 8\n\tirp q,1,2\n\tinclude "ln.inc"\n\tendm\n\tbyt 12\n\tirpc c,"ab"\n\tinclude "ln.inc"\n\tbyt 15\n\tendm\n\tbyt 17\n\tbyt 18\n\twhile 0\n\tendm\n\tbyt 21\n\tinclude "ln.inc"\n\tbyt 23\n', {'ln.inc': '\tbyt 101\n\tbyt 102\n'}),
+    # string symbols whose text contains the delimiters and the escape character of the share formats
+    'g_sharestr': ('\tcpu 8080\ns1\tequ "a\\"b"\ns2\tequ "x\\\\y"\ns3\tequ "it\'s"\ns4\tequ "plain"\ns5\tequ "\\""\ns6\tequ "\\\\"\nn1\tequ 77\n\tdb s1,s2,s3,s4,s5,s6,n1\n\tshared s1,s2,s3,s4,s5,s6,n1\n', {}),
     'g_c30': ('\tcpu 320c30\n\torg 100h\nx:\tword 1,2,3\n\tldi r0,r1\n\tshared x\n', {}),
 }
 SHARE = {'c': ['-c'], 'p': ['-p'], 'a': ['-a'], 'ch': ['-c', '-h'], 'ph': ['-p', '-h'], 'ah': ['-a', '-h']}      # -h: hexadecimal digits in lower case
@@ -56,6 +58,9 @@ SHARE = {'c': ['-c'], 'p': ['-p'], 'a': ['-a'], 'ch': ['-c', '-h'], 'ph': ['-p',
 
 def sources():
     return corpus.tests() + sorted(GEN)
+
+
+SHARESTR = {'S1': 'a"b', 'S2': 'x\\y', 'S3': "it's", 'S4': 'plain', 'S5': '"', 'S6': '\\'}
 
 
 def subspaces(tier):
@@ -439,6 +444,8 @@ def evaluate(case):
         # the assembler-format file is meant to be INCLUDEd: every value must be a number in the target's own syntax (a hexadecimal
         # constant with H suffix starts with a digit, otherwise it is a symbol name)
         for m in re.finditer(r'^(\w+)\s+(?:equ|=|set)\s+(\S+)', sh, re.M | re.I):
+            if t == 'g_sharestr' and m.group(2).startswith('"'):
+                continue
             if not re.fullmatch(r'\$[0-9A-Fa-f]+|0x[0-9A-Fa-f]+|[0-9][0-9A-Fa-f]*[hH]|\d+|[0-7]+[oOqQ]|[01]+[bB]|%[01]+|@[0-7]+', m.group(2)):
                 return core.R(False, 'share-value', 'symbols/share-file-not-a-number', 'share file gives %s the value "%s", which is not a number on %s' % (m.group(1), m.group(2), desc))
     for m in re.finditer(r'(?:#define\s+(\w+)\s+(0x[0-9A-Fa-f]+|\d+)|^(\w+)\s*=\s*(\$[0-9A-Fa-f]+|\d+);|^(\w+)\s+(?:equ|=|set)\s+(\$[0-9A-Fa-f]+|0x[0-9A-Fa-f]+|[0-9A-Fa-f]+h|\d+))', sh, re.M | re.I):
@@ -456,5 +463,18 @@ def evaluate(case):
         ref = symmap.get(name, symlst.get(name))
         if ref is not None and (ref & 0xffffffff) != (v & 0xffffffff):
             return core.R(False, 'share-value', 'symbols/share-file', 'symbol %s: share file %x, symbol table %x on %s' % (name, v, ref, desc))
+    if t == 'g_sharestr':
+        # a shared string is written the way the reading language spells it: delimiter and escape character inside the text
+        for name, text in SHARESTR.items():
+            if 'p' in case['share']:
+                m = re.search(r"(?mi)^%s\s*=\s*'((?:[^']|'')*)';\s*$" % name, sh)
+                got = m.group(1).replace("''", "'") if m else None
+            else:
+                m = re.search(r'(?mi)^(?:#define\s+%s\s+|%s\s+equ\s+)"((?:[^"\\]|\\.)*)"\s*$' % (name, name), sh)
+                got = re.sub(r'\\(.)', r'\1', m.group(1)) if m else None
+            if got != text:
+                line = [l for l in sh.split('\n') if re.match(r'(?i)(#define\s+)?%s\b' % name, l)]
+                return core.R(False, 'share-string', 'symbols/share-file-string', 'string symbol %s = %r is written as %r (read back: %r) on %s' % (name, text, line[:1], got, desc))
+            nshare += 1
     return core.R(True, 'consistent' if not retract else 'consistent(retractions: listing skipped)', nontrivial=ncode > 0 or nmap > 0,
                   states=['%s/%d' % (t, radix)], transitions=1)
